@@ -31,6 +31,10 @@ func Parse(source string) (expr Expression, err error) {
 	if err != nil {
 		return nil, err
 	}
+	if p.val == nil {
+		// the source parsed as a statement (e.g. it began with an internal statement selector), not as an expression
+		return nil, SyntaxError(fmt.Errorf("syntax error in %q", source).Error())
+	}
 	return &expression{p.val}, nil
 }
 
